@@ -36,7 +36,7 @@ KFL_RULE = ("a coherence block - every comparison operator between a path (plain
 
 PROPS = {
     "C11": dict(
-        proof_modules=["KsVerif.Proofs.C11"],
+        proof_modules=["KsVerif.Proofs.C11", "KsVerif.Proofs.C11Amqp"],
         families=["stages.redis", "stages.amqp", "stages.http", "stages.dns", "stages.kafka",
                   "stages.redismut", "stages.amqpmut", "stages.httpmut", "stages.kafkamut"],
         rule="stages.<proto>mut: the same conversations with 1-3 byte-level mutations (a byte or a 16/32-bit field set to a "
@@ -65,8 +65,10 @@ PROPS = {
     ),
     "C12": dict(
         proof_modules=["KsVerif.Proofs.C12"],
-        families=["kfl.eval"],
-        rule="kfl.eval: " + KFL_RULE + "truth and limit compared three ways (real code, model, reference semantics); "
+        families=["kfl.eval", "kfl.api"],
+        rule="kfl.api: Apply and PrepareQuery + Eval against the steps they are made of (ExpandMacros, Parse, Precompute, Eval) on a "
+             "sample of the kfl.eval cases, each entry point twice, and time-helper queries prepared twice with the record "
+             "stamped in between (now() is the instant of this preparation); kfl.eval: " + KFL_RULE + "truth and limit compared three ways (real code, model, reference semantics); "
              "non-trivial = inside the model and the reference semantics' domain",
         trusted_base=KFL_TB + LIB,
         assumptions=["where the statement is silent the reference semantics follows the implementation: array-vs-array "
@@ -97,8 +99,11 @@ PROPS = {
     ),
     "C15": dict(
         proof_modules=["KsVerif.Proofs.C15", "KsVerif.Proofs.C15Spec"],
-        families=["kfl.redact"],
-        rule="kfl.redact: records with unique sentinel strings at every leaf (objects, arrays, nested objects, JSON "
+        families=["kfl.redact", "kfl.redactf"],
+        rule="kfl.redactf: `F and redact(P)` for 17 filter shapes F (plain, bracket-key, index + field - after which the grammar "
+             "nests the rest of the query -, negated, parenthesised, conjunctions) on the records and path sets of kfl.redact: where F "
+             "holds the returned record must be the one redact(P) alone returns; "
+             "kfl.redact: records with unique sentinel strings at every leaf (objects, arrays, nested objects, JSON "
              "documents held plainly and base64-wrapped in string fields, a document nested two levels deep) x 1-3 "
              "redaction paths drawn from plain, indexed, bracket-key, wildcard, recursive-descent paths, one and two "
              ".json() hops, non-existing and overlapping paths in any order; the returned record is compared as a value, "
@@ -283,8 +288,10 @@ PROPS = {
     ),
     "C10": dict(
         proof_modules=["KsVerif.Proofs.C10"],
-        families=["sched.match.redis", "sched.match.http", "sched.match.http10", "sched.match.amqp", "sched.match.kafka", "sched.excl"],
-        rule="sched.excl: with one half parked AT a yield point inside the matcher's locked region, the other half must block; "
+        families=["sched.match.redis", "sched.match.http", "sched.match.http10", "sched.match.amqp", "sched.match.kafka", "sched.excl", "sched.indep"],
+        rule="sched.indep: HEAD / GET conversations (which the dissector misreads - a recorded finding - so that no model predicts the "
+             "items) under every interleaving of the two halves: pairs and residue must equal those of the run 'client half first'; "
+             "sched.excl: with one half parked AT a yield point inside the matcher's locked region, the other half must block; "
              "the real Dissect of both halves runs in two controlled goroutines sharing matcher, counters and emitter; "
              "every interleaving at the yield points, exhaustively (stateless DFS) for 1-2 exchanges (quick) / 1-3 "
              "(thorough), seeded random schedules for 3-8 exchanges; trace, items, indices, residue and statistics "
